@@ -88,6 +88,9 @@ class RecordMitm(object):
             if t["src"] < len(self.seen[other]):
                 old = self.seen[other][t["src"]]
                 return net.rec_bytes(*old) + raw
+            # the record to reflect has not been sent yet: nothing forged
+            self.fired.pop()
+            self.stats[kind] -= 1
             return raw
         if kind == "inject_plain":
             return net.rec_bytes(t["type"], tuple(t.get("ver", ver)),
